@@ -26,7 +26,7 @@ def discharge(ex, o, timeout_ms=10000, seed=0, want_model=True, ground=True):
         # relevance filter (sound: it only drops hypotheses): a goal that does not mention the sum
         # functions is first tried without the facts and lemmas about sums
         if not mentions(o.goal, ('psum', 'rpsum')):
-            s0 = make_solver(min(timeout_ms, 3000), seed)
+            s0 = make_solver(timeout_ms, seed)
             for a in axioms:
                 if not mentions(a, ('psum', 'rpsum')):
                     s0.add(a)
